@@ -549,7 +549,7 @@ func (c *fnCtx) function() {
 
 func (c *fnCtx) zeroOf(t *fnType, at ast.Node) string {
 	switch t.k {
-	case "int", "byte":
+	case "int", "byte", "u64":
 		return "0"
 	case "bool":
 		return "false"
@@ -1307,6 +1307,11 @@ func (c *fnCtx) expr(e ast.Expr, pre *[]fnBind) (string, *fnType) {
 			}
 			c.lostAt(v, "selector %s", src(v))
 		}
+		if id, ok := v.X.(*ast.Ident); ok && id.Obj == nil && id.Name == "math" {
+			if n, ok := mathConsts[v.Sel.Name]; ok {
+				return n, tyUntyped
+			}
+		}
 		if s, t := c.structSelect(v, pre); t != nil {
 			return s, t
 		}
@@ -1325,6 +1330,9 @@ func (c *fnCtx) expr(e ast.Expr, pre *[]fnBind) (string, *fnType) {
 			}
 			if t.k == "byte" {
 				return "(go_byte (- " + x + "))", t
+			}
+			if t.k == "u64" {
+				return "(go_u64 (- " + x + "))", t
 			}
 			return "(- " + x + ")", t
 		case token.ADD:
@@ -1469,6 +1477,9 @@ func numResult(a, b *fnType) *fnType {
 	if a.k == "byte" || b.k == "byte" {
 		return tyByte
 	}
+	if a.k == "u64" || b.k == "u64" {
+		return tyU64
+	}
 	if a.k == "untyped" && b.k == "untyped" {
 		return tyUntyped
 	}
@@ -1532,6 +1543,9 @@ func (c *fnCtx) binary(v *ast.BinaryExpr, pre *[]fnBind) (string, *fnType) {
 		if rt.k == "byte" {
 			s = "(go_byte " + s + ")"
 		}
+		if rt.k == "u64" {
+			s = "(go_u64 " + s + ")"
+		}
 		return s, rt
 	case token.QUO, token.REM:
 		if !xt.isNum() || !yt.isNum() {
@@ -1562,6 +1576,9 @@ func (c *fnCtx) binary(v *ast.BinaryExpr, pre *[]fnBind) (string, *fnType) {
 		}
 		if xt.k == "byte" {
 			return "(go_byte (Z.shiftl " + x + " " + y + "))", xt
+		}
+		if xt.k == "u64" {
+			return "(go_u64 (Z.shiftl " + x + " " + y + "))", xt
 		}
 		return "(Z.shiftl " + x + " " + y + ")", xt
 	case token.LSS, token.LEQ, token.GTR, token.GEQ:
